@@ -7,12 +7,31 @@
 #include <pthread.h>
 #include <wchar.h>
 #include <time.h>
+#include <locale.h>
 
 static const char *g_cfg = "plain"; static int g_tier; static int g_nthreads = 8;
 static int want(const char *p) { return !strcmp(g_prop, "ALL") || !strcmp(g_prop, p); }
 
-enum { F_QSORT, F_ASCTIME, F_CTIME, F_LDBL, F_BIGF, F_SWPRINTF, F_STRCPY, F_MEMCPY, F_SPRINTF_D, F_WCSCPY, F_STRTOK, F_SNPRINTF_S, F_NUM };
-static const char *FN[F_NUM] = {"qsort_s", "asctime_s", "ctime_s", "sprintf_s(%Lf)", "sprintf_s(%f>1e9)", "swprintf_s(no-space)", "strcpy_s", "memcpy_s", "sprintf_s(%d)", "wcscpy_s", "strtok_s", "snprintf_s(%s)"};
+enum { F_QSORT, F_ASCTIME, F_CTIME, F_LDBL, F_BIGF, F_SWPRINTF, F_STRCPY, F_MEMCPY, F_SPRINTF_D, F_WCSCPY, F_STRTOK, F_SNPRINTF_S,
+       F_WCSNORM, F_WCSFC, F_MBSTOWCS, F_WCSTOMBS, F_STRERROR, F_GMTIME, F_LOCALTIME, F_VFPRINTF, F_BSEARCH, F_GETENV, F_WCSTOK, F_SWPRINTF_OK, F_SPRINTF_G, F_NUM };
+static const char *FN[F_NUM] = {"qsort_s", "asctime_s", "ctime_s", "sprintf_s(%Lf)", "sprintf_s(%f>1e9)", "swprintf_s(no-space)", "strcpy_s", "memcpy_s", "sprintf_s(%d)", "wcscpy_s", "strtok_s", "snprintf_s(%s)",
+                                "wcsnorm_s(NFC)", "wcsfc_s", "mbstowcs_s", "wcstombs_s", "strerror_s", "gmtime_s", "localtime_s", "vfprintf_s", "bsearch_s", "getenv_s", "wcstok_s", "swprintf_s", "sprintf_s(%g)"};
+/* expectations computed single-threaded before the threads start (same code, alone) */
+#define MAXT 40
+static wchar_t g_norm_src[MAXT][12], g_norm_want[MAXT][24], g_fc_src[MAXT][12], g_fc_want[MAXT][40]; static rsize_t g_norm_len[MAXT], g_fc_len[MAXT];
+static char g_strerr_want[MAXT][120];
+static int v_vfprintf_s(FILE *f, const char *fmt, ...) { va_list ap; va_start(ap, fmt); int r = vfprintf_s(f, fmt, ap); va_end(ap); return r; }
+static int cmp_u32(const void *k, const void *e, void *ctx) { (void)ctx; uint32_t a = *(const uint32_t *)k, b = *(const uint32_t *)e; return a < b ? -1 : a > b; }
+static void precompute(void) {
+    for (int t = 0; t < MAXT; t++) {
+        /* decomposed input with thread-specific letters: A + ring, e + acute, a third letter + diaeresis */
+        wchar_t *n = g_norm_src[t]; n[0] = L'A' + t % 26; n[1] = 0x30A; n[2] = L'e'; n[3] = 0x301; n[4] = L'a' + t % 26; n[5] = 0x308; n[6] = L'0' + t % 10; n[7] = 0;
+        _wcsnorm_s_chk(g_norm_want[t], 24, n, WCSNORM_NFC, &g_norm_len[t], sizeof g_norm_want[t]);
+        wchar_t *f = g_fc_src[t]; f[0] = L'A' + t % 26; f[1] = 0xDF; f[2] = 0x130; f[3] = L'Z' - t % 26; f[4] = 0xC5; f[5] = L'0' + t % 10; f[6] = 0;
+        _wcsfc_s_chk(g_fc_want[t], 40, f, &g_fc_len[t], sizeof g_fc_want[t]);
+        _strerror_s_chk(g_strerr_want[t], sizeof g_strerr_want[t], t % 35, sizeof g_strerr_want[t]);
+    }
+}
 static volatile int g_inflight[F_NUM]; static unsigned long long g_overlap[F_NUM], g_calls[F_NUM], g_bad[F_NUM];
 static pthread_barrier_t g_bar; static pthread_mutex_t g_rep = PTHREAD_MUTEX_INITIALIZER;
 static char g_first[F_NUM][300];
@@ -32,8 +51,9 @@ static int cmp_small(const void *a, const void *b, void *ctx) { (void)ctx; uint3
 
 static void *thread_main(void *arg) {
     int tid = (int)(intptr_t)arg; rng_t g = rng_from(g_seed, 1200, (uint64_t)tid);
-    long iters = g_tier ? 40000 : 6000;
+    long iters = g_tier ? 60000 : 10000;
     elem_t *arr = malloc(24 * sizeof *arr); small_t sm[64];
+    FILE *tf = tmpfile(); long tf_lines = 0;
     pthread_barrier_wait(&g_bar);
     for (long it = 0; it < iters; it++) {
         int f = (int)(it % F_NUM);
@@ -65,8 +85,40 @@ static void *thread_main(void *arg) {
         case F_STRTOK: { char s[40]; snprintf(s, sizeof s, "a%d,b%d,c%ld", tid, tid, it % 100); rsize_t len = sizeof s; char *ctx = NULL; int n = 0; char first[16] = "";
             ENTER(f); for (char *t = _strtok_s_chk(s, &len, ",", &ctx, sizeof s); t && n < 8; t = _strtok_s_chk(NULL, &len, ",", &ctx, 0)) { if (!n) snprintf(first, sizeof first, "%s", t); n++; } LEAVE(f);
             char w1[16]; snprintf(w1, sizeof w1, "a%d", tid); if (n != 3 || strcmp(first, w1)) bad(f, "thread %d: strtok_s gave %d tokens, first '%s'", tid, n, first); break; }
+        case F_WCSNORM: { wchar_t got[24]; rsize_t l = 0; int k = tid % MAXT; ENTER(f); errno_t r = _wcsnorm_s_chk(got, 24, g_norm_src[k], WCSNORM_NFC, &l, sizeof got); LEAVE(f);
+            if (r || l != g_norm_len[k] || wcscmp(got, g_norm_want[k])) bad(f, "thread %d: wcsnorm_s(NFC) gave rc=%d len=%zu, alone it gives len=%zu", tid, r, (size_t)l, (size_t)g_norm_len[k]); break; }
+        case F_WCSFC: { wchar_t got[40]; rsize_t l = 0; int k = tid % MAXT; ENTER(f); errno_t r = _wcsfc_s_chk(got, 40, g_fc_src[k], &l, sizeof got); LEAVE(f);
+            if (r || l != g_fc_len[k] || wcscmp(got, g_fc_want[k])) bad(f, "thread %d: wcsfc_s gave rc=%d len=%zu, alone it gives len=%zu", tid, r, (size_t)l, (size_t)g_fc_len[k]); break; }
+        case F_MBSTOWCS: { char src[32]; wchar_t got[32], want_[32]; snprintf(src, sizeof src, "T%02d-%05ld-\xc3\xa9\xe2\x82\xac", tid, it % 100000); size_t n = mbstowcs(want_, src, 32), rv = 0;
+            ENTER(f); errno_t r = _mbstowcs_s_chk(&rv, got, 32, src, 31, sizeof got); LEAVE(f); if (r || rv != n || wmemcmp(got, want_, n + 1)) bad(f, "thread %d: mbstowcs_s gave rc=%d retval=%zu, libc %zu", tid, r, rv, n); break; }
+        case F_WCSTOMBS: { wchar_t src[24]; char got[64], want_[64]; swprintf(src, 24, L"T%02d-%05ld-\u00e9\u20ac", tid, it % 100000); size_t n = wcstombs(want_, src, 64), rv = 0;
+            ENTER(f); errno_t r = _wcstombs_s_chk(&rv, got, 64, src, 63, sizeof got); LEAVE(f); if (r || rv != n || memcmp(got, want_, n + 1)) bad(f, "thread %d: wcstombs_s gave rc=%d retval=%zu, libc %zu", tid, r, rv, n); break; }
+        case F_STRERROR: { char got[120]; int k = tid % MAXT; ENTER(f); errno_t r = _strerror_s_chk(got, sizeof got, k % 35, sizeof got); LEAVE(f); if (r || strcmp(got, g_strerr_want[k])) bad(f, "thread %d: strerror_s(%d) gave rc=%d '%.40s', alone '%.40s'", tid, k % 35, r, got, g_strerr_want[k]); break; }
+        case F_GMTIME: case F_LOCALTIME: { time_t t = (time_t)(86400L * 400 * (tid + 1) + it * 3607); struct tm got, want_; memset(&got, 0, sizeof got);
+            if (f == F_GMTIME) { gmtime_r(&t, &want_); ENTER(f); struct tm *r = gmtime_s(&t, &got); LEAVE(f); if (!r || got.tm_year != want_.tm_year || got.tm_yday != want_.tm_yday || got.tm_hour != want_.tm_hour || got.tm_min != want_.tm_min || got.tm_sec != want_.tm_sec) bad(f, "thread %d: gmtime_s differs from gmtime_r (year %d vs %d)", tid, got.tm_year, want_.tm_year); }
+            else { localtime_r(&t, &want_); ENTER(f); struct tm *r = localtime_s(&t, &got); LEAVE(f); if (!r || got.tm_year != want_.tm_year || got.tm_yday != want_.tm_yday || got.tm_hour != want_.tm_hour || got.tm_min != want_.tm_min || got.tm_sec != want_.tm_sec) bad(f, "thread %d: localtime_s differs from localtime_r (year %d vs %d)", tid, got.tm_year, want_.tm_year); }
+            break; }
+        case F_VFPRINTF: { if (!tf) break; ENTER(f); int r = v_vfprintf_s(tf, "T%03d:%ld:%s\n", tid, it, "thread-private-line"); LEAVE(f); if (r < 0) bad(f, "thread %d: vfprintf_s to a private stream returned %d", tid, r); tf_lines++; break; }
+        case F_BSEARCH: { uint32_t arr[37]; for (int i = 0; i < 37; i++) arr[i] = (uint32_t)(tid * 1000 + i * 3); uint32_t key = (uint32_t)(tid * 1000 + (int)(it % 37) * 3);
+            ENTER(f); uint32_t *r = _bsearch_s_chk(&key, arr, 37, sizeof arr[0], cmp_u32, NULL, sizeof arr); LEAVE(f); if (!r || *r != key || r != &arr[it % 37]) bad(f, "thread %d: bsearch_s did not find key %u", tid, key); break; }
+        case F_GETENV: { char got[40]; size_t l = 0; ENTER(f); errno_t r = _getenv_s_chk(&l, got, sizeof got, "VERIF_THREADS_ENV", sizeof got); LEAVE(f); if (r || l != 17 || strcmp(got, "thread-env-value!")) bad(f, "thread %d: getenv_s gave rc=%d '%.30s'", tid, r, got); break; }
+        case F_WCSTOK: { wchar_t s[40]; swprintf(s, 40, L"a%d,b%d,c%ld", tid, tid, it % 100); rsize_t len = 40; wchar_t *ctx = NULL; int n = 0; wchar_t first[16] = L"";
+            ENTER(f); for (wchar_t *t = _wcstok_s_chk(s, &len, L",", &ctx, sizeof s); t && n < 8; t = _wcstok_s_chk(NULL, &len, L",", &ctx, 0)) { if (!n) { wcsncpy(first, t, 15); first[15] = 0; } n++; } LEAVE(f);
+            wchar_t w1[16]; swprintf(w1, 16, L"a%d", tid); if (n != 3 || wcscmp(first, w1)) bad(f, "thread %d: wcstok_s gave %d tokens", tid, n); break; }
+        case F_SWPRINTF_OK: { wchar_t got[64], want_[64]; swprintf(want_, 64, L"<%d|%ls|%5ld>", tid, L"w-private", it % 99999); ENTER(f); int r = _swprintf_s_chk(got, 64, sizeof got, L"<%d|%ls|%5ld>", tid, L"w-private", it % 99999); LEAVE(f);
+            if (r < 0 || wcscmp(got, want_)) bad(f, "thread %d: swprintf_s gave rc=%d, text differs from swprintf", tid, r); break; }
+        case F_SPRINTF_G: { char got[64], want_[64]; double v = (double)tid * 1.5 + (double)(it % 1000) / 8.0; snprintf(want_, sizeof want_, "%g|%e", v, v); ENTER(f); int r = _sprintf_s_chk(got, sizeof got, sizeof got, "%g|%e", v, v); LEAVE(f);
+            if (r < 0 || strcmp(got, want_)) bad(f, "thread %d: sprintf_s(%%g|%%e) gave rc=%d '%s', C printf '%s'", tid, r, got, want_); break; }
         case F_SNPRINTF_S: { char got[64], want_[64]; snprintf(want_, sizeof want_, "[%10s|%-6d]", FN[tid % F_NUM], tid); ENTER(f); int r = _snprintf_s_chk(got, sizeof got, sizeof got, "[%10s|%-6d]", FN[tid % F_NUM], tid); LEAVE(f); if (r < 0 || strcmp(got, want_)) bad(f, "thread %d: snprintf_s gave '%s' want '%s'", tid, got, want_); break; }
         }
+    }
+    if (tf) {   /* every line of the private stream must be this thread's own, complete and in order */
+        char line[128]; long n = 0, lastit = -1; rewind(tf);
+        while (fgets(line, sizeof line, tf)) { int t2 = -1; long it2 = -1; char tail[40] = "";
+            if (sscanf(line, "T%d:%ld:%39s", &t2, &it2, tail) != 3 || t2 != tid || it2 <= lastit || strcmp(tail, "thread-private-line")) { bad(F_VFPRINTF, "thread %d: its private stream contains the line '%.50s'", tid, line); break; }
+            lastit = it2; n++; }
+        if (n != tf_lines) bad(F_VFPRINTF, "thread %d: wrote %ld lines with vfprintf_s, its private stream holds %ld", tid, tf_lines, n);
+        fclose(tf);
     }
     free(arr);
     return NULL;
@@ -83,6 +135,8 @@ int main(int argc, char **argv) {
         else if (!strcmp(argv[i], "--threads")) g_nthreads = atoi(argv[++i]);
         else { fprintf(stderr, "unknown arg %s\n", argv[i]); return 2; }
     }
+    setlocale(LC_ALL, "C.UTF-8"); setenv("TZ", "UTC", 1); tzset(); setenv("VERIF_THREADS_ENV", "thread-env-value!", 1);
+    precompute();
     int rounds = g_tier ? 6 : 2;
     for (int r = 0; r < rounds; r++) {
         int nt = r % 2 ? 16 : g_nthreads; pthread_t th[32];
@@ -95,7 +149,8 @@ int main(int argc, char **argv) {
     for (int f = 0; f < F_NUM; f++) {
         tot += g_calls[f]; ov += g_overlap[f];
         fprintf(g_out, "{\"t\":\"s\",\"s\":{\"function\":\"%s\",\"calls\":%llu,\"calls_overlapping_same_function\":%llu,\"wrong_results\":%llu}}\n", FN[f], g_calls[f], g_overlap[f], g_bad[f]);
-        {   char b[64]; snprintf(b, sizeof b, "thr;%s;%d", FN[f], g_overlap[f] > 0); distinct_add(hash_str(b)); }
+        {   char b[64]; snprintf(b, sizeof b, "thr;%s;%d", FN[f], g_overlap[f] > 0); distinct_add(hash_str(b));
+            snprintf(b, sizeof b, "thread_calls|%s", FN[f]); emit_counter(b, g_calls[f]); snprintf(b, sizeof b, "thread_calls_overlapping_same_function|%s", FN[f]); emit_counter(b, g_overlap[f]); }
         if (g_bad[f] && want("C12")) {
             char key[200], what[500], w[500];
             snprintf(key, sizeof key, "interference|%s|%s", FN[f], g_cfg);
